@@ -412,7 +412,9 @@ impl OutputFormat for IcyDraw {
                                         match font_slot.parse() {
                                             Ok(font_slot) => {
                                                 let mut o: usize = 0;
-                                                let (font_name, size) = read_utf8_encoded_string(&bytes[o..]);
+                                                let Some((font_name, size)) = read_utf8_encoded_string(&bytes[o..]) else {
+                                                    return Err(LoadingError::FileTooShort.into());
+                                                };
                                                 o += size;
                                                 let font = BitFont::from_bytes(font_name, &bytes[o..])?;
                                                 result.set_font(font_slot, font);
@@ -510,7 +512,9 @@ impl OutputFormat for IcyDraw {
                                     }
                                     let mut o: usize = 0;
 
-                                    let (title, size) = read_utf8_encoded_string(&bytes[o..]);
+                                    let Some((title, size)) = read_utf8_encoded_string(&bytes[o..]) else {
+                                        return Err(LoadingError::FileTooShort.into());
+                                    };
                                     let mut layer = Layer::new(title, (0, 0));
 
                                     o += size;
@@ -704,9 +708,16 @@ fn get_invisible_line_length(layer: &Layer, y: i32) -> i32 {
     length
 }
 
-fn read_utf8_encoded_string(data: &[u8]) -> (String, usize) {
+/// Reads a string stored as a 32 bit length followed by that many bytes; `None` when `data` is shorter than that.
+fn read_utf8_encoded_string(data: &[u8]) -> Option<(String, usize)> {
+    if data.len() < 4 {
+        return None;
+    }
     let size = u32::from_le_bytes(data[0..4].try_into().unwrap()) as usize;
-    (String::from_utf8_lossy(&data[4..(4 + size)]).into_owned(), size + 4)
+    if data.len() - 4 < size {
+        return None;
+    }
+    Some((String::from_utf8_lossy(&data[4..(4 + size)]).into_owned(), size + 4))
 }
 
 fn write_utf8_encoded_string(data: &mut Vec<u8>, s: &str) {
